@@ -18,7 +18,8 @@ fn sigs() -> Vec<(U256, U256, bool)> {
 pub fn run(ctx: &Ctx) {
     let seen: Mutex<std::collections::HashMap<[u8; 32], [u8; 32]>> = Mutex::new(Default::default()); let dup = std::sync::atomic::AtomicU64::new(0);
     let one = |sweep: &str, i: u64, shape: String, tx: &Tx, sg: &(U256, U256, bool)| {
-        let text = txjson::tx_json(tx, Spell::Auto).to_text();
+        // numbers below 2^64 are written as bare JSON integers in every other case (exactly representable as doubles or not)
+        let text = txjson::tx_json(tx, if i % 2 == 1 { Spell::JsonIntIfU64 } else { Spell::Auto }).reordered(i % 3).to_text();
         let replay = || tx_replay(sweep, i, &text, Some(tx), None);
         emit_tx(ctx, sweep, i, 4, &shape, &text, Some(tx), "must-accept", &refmodel::secp::Curve::new());
         ctx.sample(sweep, || serde_json::json!({"shape": shape, "json_prefix": &text[..text.len().min(300)]}));
@@ -28,7 +29,7 @@ pub fn run(ctx: &Ctx) {
             Ok(Ok(o)) => { ctx.eval(format!("{shape}:encoded"));
                 if let Some((k, what)) = compare_tx(&refmodel::secp::Curve::new(), tx, &o, None) { ctx.violation(format!("{P}:encode:{shape}:{k}"), what, replay()) }
                 // distinct transactions never share an encoding: encoding -> the (transaction, signature) it came from
-                let who = keccak256(format!("{text}|{:?}", sg).as_bytes());
+                let who = keccak256(format!("{:?}|{:?}|{:?}|{:?}", tx.kind, tx.chain_id, tx.base_fields(), sg).as_bytes()); // what the transaction IS (kind, chain id, the fields of its kind), independent of JSON key order, spelling and unused fields
                 let prev = seen.lock().unwrap().insert(keccak256(&o.encoded), who);
                 if prev.map_or(false, |p| p != who) { dup.fetch_add(1, std::sync::atomic::Ordering::Relaxed); ctx.violation(format!("{P}:encode:{shape}:shared-encoding"), "two distinct transactions share an encoding", replay()) } }
         }
